@@ -242,6 +242,32 @@ func rulePAIRpar1(w *World, r *Report) {
 			r.bad("PAIR", key, w.pos(fn.Pos()), "names are not converted with "+p.callee+": characters outside the BMP need surrogate pairs in UTF-16")
 		}
 	}
+	// buffer sizes: 2 bytes per UTF-16 code unit (not per rune), code units = bytes/2
+	if fn := w.Fn("par1.encodeUTF16LEString"); fn != nil {
+		ok := false
+		for _, b := range fn.Blocks {
+			for _, in := range b.Instrs {
+				mk, isMk := in.(*ssa.MakeSlice)
+				if !isMk {
+					continue
+				}
+				if bo, isB := mk.Len.(*ssa.BinOp); isB && bo.Op.String() == "*" {
+					for _, pr := range [][2]ssa.Value{{bo.X, bo.Y}, {bo.Y, bo.X}} {
+						if c, isC := constInt(pr[0]); isC && c == 2 {
+							if lc := isBuiltinCall(pr[1], "len"); lc != nil && callOf(lc.Call.Args[0], "unicode/utf16.Encode") != nil {
+								ok = true
+							}
+						}
+					}
+				}
+			}
+		}
+		if ok {
+			r.ok("PAIR", "par1:utf16-size:encode", w.pos(fn.Pos()), "the encoded name has 2 bytes per UTF-16 code unit returned by utf16.Encode")
+		} else {
+			r.bad("PAIR", "par1:utf16-size:encode", w.pos(fn.Pos()), "the encoded name's buffer is not sized 2*len(utf16.Encode(...)): names with characters outside the BMP (two code units per rune) are truncated")
+		}
+	}
 	// both readers/writers of the entry name go through these helpers
 	for _, p := range []struct{ fn, callee string }{{"par1.writeFileEntry", "par1.encodeUTF16LEString"}, {"par1.readFileEntry", "par1.decodeUTF16LEString"}} {
 		fn := w.Fn(p.fn)
